@@ -20,6 +20,7 @@ func checkC05(r *Result) {
 	r.Assumptions = []string{"x/staking Delegate with subtractAccount=false moves tokens between pools exactly as its tokenSrc / validator-status table says", "x/bank module-to-module sends move exactly the coins given"}
 	r.rule("CENSUS-STAKING", "the staking ledger is mutated only at the known sites of x/reporter/keeper")
 	r.rule("PAIR-DELEGATE", "a Delegate without account subtraction is paired with a transfer of the same amount into the pool matching its token source")
+	r.rule("HOOK-ATOMIC", "a state-writing step that fails inside a block hook aborts the hook: partial writes are never committed")
 	r.rule("PAIR-UNBOND", "the amount moved to the dispute escrow is the amount Unbond returned, out of the pool matching the validator's status")
 	r.rule("FRESH-VALIDATOR", "the validator value handed to Delegate is a store read of the same loop iteration (Delegate writes the value back)")
 	r.rule("POSITIVE-DELEGATE", "no Delegate with a zero amount (it would create a delegation without shares)")
@@ -509,6 +510,20 @@ func checkC05(r *Result) {
 				func(v map[string]bool) bool { return v["rewritten"] == v["moved"] })
 		}
 	}
+	// a hook that goes on after a failed, state-writing step commits whatever that step had written: every such
+	// failure in the block hooks aborts the hook (the error is returned, the block is not produced)
+	{
+		oks, bads := P.HookErrorsPropagate(nil)
+		for _, l := range oks {
+			i := strings.LastIndex(l, " @ ")
+			r.ok("HOOK-ATOMIC", l[:i], l[i+3:], "on the failure edge the hook returns the error; no success return and no next iteration is reachable")
+		}
+		for _, l := range bads {
+			i := strings.LastIndex(l, " @ ")
+			r.bad("HOOK-ATOMIC", l[:i], l[i+3:], "the hook continues (success return or next iteration) after this state-writing call failed: a partial write (a delegation without its coin move) would be committed with the block")
+		}
+	}
+	r.minCount("HOOK-ATOMIC", 3)
 	r.minCount("CENSUS-STAKING", 8)
 	r.minCount("PAIR-DELEGATE", 10)
 	r.minCount("PAIR-UNBOND", 7)
